@@ -45,6 +45,7 @@ class Violation:
         self.crash = None  # None | 'terminate' | 'asan' | 'signal'
         self.flavour = ""
         self.op_kind = ""
+        self.also = []  # further violations raised in the same step: (oracle, props, msg)
 
     def signature(self):
         return (self.oracle, self.op_kind)
@@ -128,6 +129,10 @@ def parse_output(text, flavour):
                 cur.at = int(m.group(7))
                 cur.kind_reported = m.group(8)
                 cur.msg = m.group(9)
+        elif line.startswith("ALSO ") and cur is not None:
+            m = re.match(r"ALSO (\S+) props=(\d+) :: (.*)", line)
+            if m:
+                cur.also.append((m.group(1), props_from_mask(int(m.group(2))), m.group(3)))
         elif line.startswith("H ") and cur is not None:
             body = line[2:]
             if body.startswith("world"):
@@ -137,6 +142,14 @@ def parse_output(text, flavour):
         elif line == "ENDVIOL" and cur is not None:
             cur.op_kind = getattr(cur, "kind_reported", None) or op_kind_at(cur.ops, cur.at)
             viols.append(cur)
+            # co-violations share the history; each becomes a violation of its own oracle
+            for (o2, p2, m2) in cur.also:
+                if p2 - cur.props:
+                    v2 = Violation()
+                    v2.__dict__.update(cur.__dict__)
+                    v2.oracle, v2.props, v2.msg, v2.also = o2, p2, m2, []
+                    v2.secondary = True
+                    viols.append(v2)
             cur = None
         elif line.startswith("PH "):
             ph.append(line[3:])
@@ -319,7 +332,7 @@ def read_replay(path):
     return d
 
 
-def observe(binary, universe, world, ops, flavour, known_args=()):
+def observe(binary, universe, world, ops, flavour, known_args=(), want=None):
     """Run an explicit history in a fresh process. Returns (oracle-or-None, at, kind, tracehash)."""
     fd, path = tempfile.mkstemp(prefix="svsim-try-", suffix=".replay", dir=os.path.join(VERIF, ".cache"))
     with os.fdopen(fd, "w") as f:
@@ -332,7 +345,7 @@ def observe(binary, universe, world, ops, flavour, known_args=()):
     trace = "\n".join(l for l in out.splitlines() if l.startswith("T ") or l.startswith("VIOL"))
     th = hashlib.sha256(trace.encode()).hexdigest()
     if viols:
-        v = viols[0]
+        v = next((x for x in viols if want is not None and x.oracle == want), viols[0])
         return v.oracle, v.at, v.op_kind, th, v
     if crash is not None or rc not in (0, 1, 3):
         if crash is None:
@@ -351,7 +364,7 @@ def minimise(binary, v, budget_s=60):
 
     def fails(cand):
         tries[0] += 1
-        o, _, _, _, _ = observe(binary, v.universe, v.world, cand, v.flavour)
+        o, _, _, _, _ = observe(binary, v.universe, v.world, cand, v.flavour, want=want)
         return o == want
 
     if not ops or not fails(ops):
@@ -414,9 +427,9 @@ def minimise(binary, v, budget_s=60):
 
 def gate_and_minimise(binary, v, prop, replay_dir, budget_s=60):
     """Returns (path, reproduced, info). A violation that does not reproduce is a machinery fault."""
-    o1 = observe(binary, v.universe, v.world, v.ops, v.flavour)
-    o2 = observe(binary, v.universe, v.world, v.ops, v.flavour)
     want = v.expect()
+    o1 = observe(binary, v.universe, v.world, v.ops, v.flavour, want=want)
+    o2 = observe(binary, v.universe, v.world, v.ops, v.flavour, want=want)
     if o1[0] != want or o2[0] != want or o1[3] != o2[3]:
         return None, False, "re-run gave %s / %s (trace hashes %s / %s), expected %s" % (
             o1[0], o2[0], o1[3][:8], o2[3][:8], want)
@@ -424,7 +437,7 @@ def gate_and_minimise(binary, v, prop, replay_dir, budget_s=60):
     mv = Violation()
     mv.__dict__.update(v.__dict__)
     mv.ops = ops
-    o3 = observe(binary, v.universe, v.world, ops, v.flavour)
+    o3 = observe(binary, v.universe, v.world, ops, v.flavour, want=want)
     if o3[0] != want:
         mv.ops = v.ops  # fall back to the unminimised history
         o3 = o1
